@@ -579,6 +579,14 @@ func (c *Ctx) MapFat() *Doc {
 		}
 		c.AddSchema(c.CompName("Fat", "fat"), s)
 	}
+	// `required` naming several properties the object does not declare (goag refuses such a
+	// spec - the same way in every run)
+	if rapid.IntRange(0, 5).Draw(t, "fat_undeclared_required") == 0 {
+		ghost := &Schema{Type: "object", Properties: map[string]*Schema{c.SafeName("p", "ghostprop"): {Type: "string"}},
+			Required: []string{c.SafeName("ghost", "ghostreq"), c.SafeName("ghost", "ghostreq"), c.SafeName("ghost", "ghostreq"), c.SafeName("ghost", "ghostreq")}}
+		cs.Schemas[c.CompName("Ghosts", "ghosts")] = ghost
+		c.Tag("fat:undeclared-required")
+	}
 	// a recursive component (a tree) whose back references run through several aliases of it
 	if rapid.Bool().Draw(t, "fat_tree") {
 		tree := c.CompName("Tree", "fattree")
